@@ -1,0 +1,12 @@
+//go:build verif
+
+package revocation
+
+// Export-only accessors for the verification harness in /verif (build tag "verif").
+
+import "github.com/privacybydesign/gabi/big"
+
+// VerifDerivedParameters returns the derived revocation parameters b, 2^(k'+k''), B*2^(k'+k''+1).
+func VerifDerivedParameters() (*big.Int, *big.Int, *big.Int) {
+	return Parameters.b, Parameters.twoZk, Parameters.bTwoZk
+}
